@@ -5,6 +5,7 @@ package resources
 
 import (
 	"context"
+	"fmt"
 
 	"github.com/NVIDIA/KAI-scheduler/pkg/common/constants"
 
@@ -29,6 +30,19 @@ func ExtractGPUSharingReceivedResources(ctx context.Context, pod *v1.Pod, kubeCl
 	}
 
 	fractionResource, err := calculateAllocatedFraction(ctx, pod, kubeClient)
+	if err != nil {
+		resources[constants.NvidiaGpuResource] = fractionResource
+		return resources, err
+	}
+	// a pod may share several devices: it received its fraction of each of them
+	fractionsCount, err := getFractionsCount(pod)
+	if err != nil {
+		return resources, err
+	}
+	if fractionsCount != 1 && !fractionResource.Mul(fractionsCount) {
+		return resources, fmt.Errorf("failed to multiply the received gpu fraction by the fraction count %d",
+			fractionsCount)
+	}
 	resources[constants.NvidiaGpuResource] = fractionResource
-	return resources, err
+	return resources, nil
 }
